@@ -1025,3 +1025,235 @@ def c10(ctx):
         '(identical requests, different requests, valid next to panicking ones), each answer compared with the answer to the same request alone; '
         'thorough tier: the same batches on a binary built with the Go race detector (a detected race aborts the process); distinct = (k, kind, '
         'methods, build)', './check C10')
+
+
+# -------------------------------------------------------------------------------------------------
+def invalid_variants(rnd, req):
+    """(constraint, request) pairs: one documented constraint violated on an otherwise valid request"""
+    out = []
+    def mod(name, f):
+        r = json.loads(json.dumps(req))
+        try:
+            if f(r) is not False:
+                out.append((name, r))
+        except (KeyError, IndexError, TypeError):
+            pass
+    m = req['preferenceFunction']
+    mp = req.get('methodParameters') or {}
+    mod('unknown method', lambda r: r.update(preferenceFunction='noSuchMethod'))
+    mod('blank method', lambda r: r.update(preferenceFunction='   '))
+    mod('duplicate criterion id', lambda r: r['criteria'].append(dict(r['criteria'][0])))
+    mod('empty value range', lambda r: r['criteria'][0].update(valuesRange={'min': 1.0, 'max': 1.0}))
+    mod('inverted value range', lambda r: r['criteria'][0].update(valuesRange={'min': 2.0, 'max': -1.0}))
+    mod('missing criterion value', lambda r: r['knownAlternatives'][-1]['criteria'].pop(r['criteria'][0]['id']))
+    mod('unknown alternative', lambda r: r['choseToMake'].append('no-such-alternative'))
+    mod('unknown bias name', lambda r: r['biases'].append({'name': 'noSuchBias', 'props': {}}))
+    if m in ('weightedSum', 'owa', 'choquetIntegral'):
+        mod('missing weights', lambda r: r['methodParameters'].pop('weights'))
+    if m == 'weightedSum':
+        mod('missing weight', lambda r: r['methodParameters']['weights'].pop(r['criteria'][0]['id']))
+    if m == 'owa':
+        mod('owa weights count', lambda r: r['methodParameters']['weights'].update(extra=1.0))
+    if m == 'choquetIntegral':
+        mod('choquet weight above 1', lambda r: r['methodParameters']['weights'].update({r['criteria'][0]['id']: 1.5}))
+        mod('choquet weight below 0', lambda r: r['methodParameters']['weights'].update({r['criteria'][0]['id']: -0.25}))
+        mod('choquet cost criterion', lambda r: r['criteria'][0].update(type='cost'))
+        mod('choquet missing subset', lambda r: r['methodParameters']['weights'].pop(r['criteria'][0]['id']))
+    if m == 'electreIII':
+        c0 = req['criteria'][0]['id']
+        mod('electre k = 0', lambda r: r['methodParameters']['electreCriteria'][c0].update(k=0))
+        mod('electre k < 0', lambda r: r['methodParameters']['electreCriteria'][c0].update(k=-1.0))
+        mod('electre thresholds not increasing', lambda r: r['methodParameters']['electreCriteria'][c0].update(q={'a': 0, 'b': 2.0}, p={'a': 0, 'b': 1.0}))
+        mod('electre veto below preference', lambda r: r['methodParameters']['electreCriteria'][c0].update(p={'a': 0, 'b': 2.0}, v={'a': 0, 'b': 1.5}))
+        mod('electre criterion without parameters', lambda r: r['methodParameters']['electreCriteria'].pop(c0))
+    if m == 'majorityHeuristic':
+        mod('unknown draw policy', lambda r: r['methodParameters'].update(drawResolution='noSuchPolicy'))
+        mod('unknown current choice', lambda r: r['methodParameters'].update(currentChoice='no-such-alternative'))
+    if m in ('aspectEliminationHeuristic', 'satisfactionHeuristic'):
+        mod('unknown level function', lambda r: r['methodParameters'].update(function='noSuchFunction'))
+        if mp.get('function') != 'thresholds':
+            mod('coefficient = 0', lambda r: r['methodParameters']['params'].update(coefficient=0))
+            mod('coefficient = 1', lambda r: r['methodParameters']['params'].update(coefficient=1))
+            mod('coefficient > 1', lambda r: r['methodParameters']['params'].update(coefficient=1.5))
+            mod('minValue out of range', lambda r: r['methodParameters']['params'].update(minValue=-0.5))
+            mod('maxValue out of range', lambda r: r['methodParameters']['params'].update(maxValue=1.5))
+        else:
+            mod('threshold level without a criterion', lambda r: (r['methodParameters']['params']['thresholds'][0].pop(r['criteria'][0]['id'])
+                                                                    if r['methodParameters']['params']['thresholds'] else False))
+    # biases (probability 1, so they fire)
+    def with_bias(name, b):
+        mod(name, lambda r: r.update(biases=[b]))
+    with_bias('omission ratio above 1', {'name': 'criteriaOmission', 'props': {'ratio': 1.5}})
+    with_bias('omission ratio below 0', {'name': 'criteriaOmission', 'props': {'ratio': -0.1}})
+    with_bias('omission max below min', {'name': 'criteriaOmission', 'props': {'ratio': 0.5, 'min': 2, 'max': 1}})
+    with_bias('unknown ordering', {'name': 'preferenceReversal', 'props': {'ratio': 0.5, 'ordering': 'noSuchOrdering'}})
+    with_bias('unknown fatigue function', {'name': 'fatigue', 'props': {'function': 'noSuchFunction', 'params': {}}})
+    with_bias('fatigue bounding scaling 0', {'name': 'fatigue', 'props': {'function': 'const', 'params': {'value': 0.1}, 'allowedValuesRangeScaling': 0}})
+    with_bias('concealment scaling 0', {'name': 'criteriaConcealment', 'props': {'newCriterionScaling': 0}})
+    with_bias('unknown reference criterion type', {'name': 'criteriaConcealment', 'props': {'referenceCriterionType': 'noSuchType'}})
+    if len(req['criteria']) >= 2:
+        with_bias('mixing ratio out of range', {'name': 'criteriaMixing', 'props': {'mixingRatio': 1.5}})
+    with_bias('anchoring without alternatives', {'name': 'anchoring', 'props': {'anchoringAlternatives': [], 'loss': {'function': 'linear', 'params': {'a': 1, 'b': 0}},
+              'gain': {'function': 'linear', 'params': {'a': 1, 'b': 0}}, 'referencePoints': {'function': 'ideal'}, 'applier': {'function': 'inline', 'params': {}}}})
+    with_bias('anchoring unknown function', {'name': 'anchoring', 'props': {'anchoringAlternatives': [{'alternative': req['knownAlternatives'][0]['id'], 'coefficient': 1}],
+              'loss': {'function': 'noSuchFunction', 'params': {}}, 'gain': {'function': 'linear', 'params': {'a': 1, 'b': 0}},
+              'referencePoints': {'function': 'ideal'}, 'applier': {'function': 'inline', 'params': {}}}})
+    return out
+
+
+def hostile_bodies(rnd, req):
+    """malformed JSON, mistyped / missing / extreme fields"""
+    good = json.dumps(req)
+    out = [b'', b'{', b'[]', b'null', b'"string"', b'{"preferenceFunction": 5}', good[:len(good) // 2].encode(),
+           (good + 'x').encode(), good.replace(':', '=', 1).encode(), b'{"knownAlternatives": null, "preferenceFunction": "owa"}',
+           b'\xff\xfe\x00', ('[' * 2000).encode(), ('{"a":' * 500 + '1' + '}' * 500).encode()]
+    def mod(f):
+        r = json.loads(good)
+        try:
+            f(r)
+            out.append(json.dumps(r).encode())
+        except Exception:
+            pass
+    mod(lambda r: r.update(knownAlternatives='nope'))
+    mod(lambda r: r.update(choseToMake=[1, 2]))
+    mod(lambda r: r.update(criteria={'id': 'x'}))
+    mod(lambda r: r.update(biases='fatigue'))
+    mod(lambda r: r.update(biases=[5, None, 'x']))
+    mod(lambda r: r.update(biasApplyRandomSeed='seed'))
+    mod(lambda r: r.update(biasApplyRandomSeed=1e300))
+    mod(lambda r: r.update(methodParameters=None))
+    mod(lambda r: r.update(methodParameters=[1]))
+    mod(lambda r: r.pop('criteria'))
+    mod(lambda r: r.pop('knownAlternatives'))
+    mod(lambda r: r.pop('choseToMake'))
+    mod(lambda r: r.update(choseToMake=[]))
+    mod(lambda r: r['knownAlternatives'][0]['criteria'].update({r['criteria'][0]['id']: 1e308}))
+    mod(lambda r: r['knownAlternatives'][0].update(criteria=None))
+    mod(lambda r: r['methodParameters'].update(weights='heavy'))
+    mod(lambda r: r['methodParameters'].update(weights={r['criteria'][0]['id']: 'heavy'}))
+    mod(lambda r: r['methodParameters'].update(params='x', function='thresholds'))
+    mod(lambda r: r['methodParameters'].update(randomSeed=-(2 ** 63)))
+    mod(lambda r: r.update(biases=[{'name': 'criteriaOmission', 'props': {'ratio': 'half'}}]))
+    mod(lambda r: r.update(biases=[{'name': 'criteriaOmission', 'applyProbability': 'often', 'props': {}}]))
+    mod(lambda r: r.update(biases=[{'name': 'fatigue', 'props': None}]))
+    mod(lambda r: r.update(biases=[{'name': 'anchoring', 'props': {'anchoringAlternatives': 'all'}}]))
+    mod(lambda r: r.update(biases=[{'name': 'criteriaOmission', 'props': {'ratio': 1.0, 'min': 50}}]))
+    mod(lambda r: r.update(biases=[{'name': 'criteriaOmission', 'props': {'ratio': 0.0, 'max': -3, 'min': -5}}]))
+    # parameters inside the validated ranges that stress termination
+    mod(lambda r: r.update(preferenceFunction='electreIII', methodParameters={'electreCriteria': {c['id']: {'k': 1.0} for c in r['criteria']},
+                                                                            'electreDistillation': {'a': -0.2, 'b': 0.1}}))
+    mod(lambda r: r.update(preferenceFunction='electreIII', methodParameters={'electreCriteria': {c['id']: {'k': 1.0} for c in r['criteria']},
+                                                                            'electreDistillation': {'a': 0.0, 'b': -0.5}}))
+    mod(lambda r: r.update(preferenceFunction='aspectEliminationHeuristic',
+                           methodParameters={'function': 'idealAdditiveCoefficient', 'params': {'coefficient': 1e-18, 'minValue': 0.5, 'maxValue': 1.0},
+                                             'weights': {c['id']: 1.0 + i for i, c in enumerate(r['criteria'])}}))
+    mod(lambda r: r.update(preferenceFunction='satisfactionHeuristic',
+                           methodParameters={'function': 'idealSubtractiveCoefficient', 'params': {'coefficient': 1e-18, 'minValue': 0.25, 'maxValue': 0.5}}))
+    return out
+
+
+@check('C20')
+def c20(ctx):
+    ctx.check_proofs()
+    rnd = ctx.rnd
+    srv = Server(ctx.binary, mem_kb=3 * 1024 * 1024)
+    TIMEOUT = 15
+
+    def shot(body, what, expect=None, req=None):
+        """one POST; the process must answer within the timeout and stay alive"""
+        t0 = time.time()
+        st, out = srv.post(body, timeout=TIMEOUT)
+        ctx.evaluations += 1
+        ctx.count('status/%s' % st)
+        payload = {'body': body.decode('utf8', 'replace')[:6000], 'status': st, 'answer': out.decode('utf8', 'replace')[:1500], 'what': what}
+        if req is not None:
+            payload['request'] = req
+        if not srv.alive():
+            ctx.violation('the service process exited while handling a request (%s)' % what, payload, {'what': what})
+            return None, None
+        if st is None:
+            ctx.violation('a request received no response within %ds (%s)' % (TIMEOUT, what), payload, {'what': what})
+            return None, None
+        if st not in (200, 400):
+            ctx.violation('unexpected status %s (%s)' % (st, what), payload, {'what': what})
+            return st, out
+        try:
+            j = json.loads(out)
+        except Exception:
+            ctx.violation('the answer is not JSON (%s)' % what, payload, {'what': what})
+            return st, out
+        if st == 200 and not (isinstance(j, dict) and 'result' in j and 'biases' in j):
+            ctx.violation('a 200 answer without result/biases (%s)' % what, payload, {'what': what})
+        if st == 400 and not (isinstance(j, dict) and 'error' in j and 'request' in j and isinstance(j.get('error'), str) and j['error']):
+            ctx.violation('a 400 answer without an error message and the echoed request (%s)' % what, payload, {'what': what})
+        if expect is not None and st != expect:
+            if expect == 400:
+                ctx.violation('a request violating a documented constraint (%s) was answered with a ranking' % what, payload, {'what': what})
+            else:
+                ctx.violation('a valid request was rejected (%s): %s' % (what, out.decode('utf8', 'replace')[:200]), payload, {'what': what})
+        return st, j
+    try:
+        st, body = srv.get('/api/preferenceFunctions')
+        ok = False
+        if st == 200:
+            try:
+                fj = json.loads(body)
+                ok = all(k in fj and fj[k] for k in gen.METHODS)
+            except Exception:
+                ok = False
+        ctx.evaluations += 1
+        if not ok:
+            ctx.violation('GET /api/preferenceFunctions does not list a parameter schema for each of the seven methods',
+                          {'status': st, 'answer': (body or b'').decode('utf8', 'replace')[:2000]}, {'what': 'functions'})
+        n = n_cases(ctx, 12, 300)
+        for i in range(n):
+            req = rnd.choice([gen.any_request, gen.biased_request])(rnd)
+            if ctx.replay and 'request' in ctx.replay:
+                req = ctx.replay['request']
+            m = req['preferenceFunction']
+            if all(b.get('applyProbability', 1) == 1 for b in req.get('biases') or []):
+                pass
+            st, j = shot(json.dumps(req).encode(), 'valid request', None, req)
+            ctx.signatures.add(('valid', m, st))
+            ctx.sample({'valid_request': req, 'status': st}, limit=1)
+            inv = invalid_variants(rnd, req)
+            for name, r in (inv if not ctx.quick else rnd.sample(inv, min(len(inv), 14))):
+                st2, j2 = shot(json.dumps(r).encode(), name, 400, r)
+                ctx.signatures.add(('invalid', name, m, st2))
+                ctx.count('constraint/' + name)
+                if st2 == 400 and isinstance(j2, dict) and name in ('unknown method', 'unknown bias name'):
+                    known = gen.METHODS if name == 'unknown method' else gen.BIASES
+                    if not all(k in j2.get('error', '') for k in known):
+                        ctx.violation('the error for an %s does not list the available names' % name, {'request': r, 'answer': j2}, {'what': name})
+            hb = hostile_bodies(rnd, req)
+            for b in (hb if not ctx.quick else rnd.sample(hb, min(len(hb), 16))):
+                st3, _ = shot(b, 'hostile body')
+                ctx.signatures.add(('hostile', hash(b[:40]) % 1000, st3))
+            if not srv.alive():
+                srv.close()
+                srv = Server(ctx.binary, mem_kb=3 * 1024 * 1024)
+        # liveness after the whole history
+        st, j = shot(json.dumps(gen.utility_request(rnd)).encode(), 'liveness probe after the history', 200)
+    finally:
+        srv.close()
+    # the model decides accept / reject like the service on the valid and the invalid stream
+    reqs = []
+    for _ in range(n_cases(ctx, 10, 120)):
+        r = rnd.choice([gen.any_request, gen.biased_request])(rnd)
+        reqs.append(r)
+        reqs += [x for _, x in rnd.sample(invalid_variants(rnd, r), 6)]
+    ress, verd, logs = e2e.run_all(ctx.pipe, reqs, 'C20')
+    bad = [(r, res, v) for r, res, v in zip(reqs, ress, verd) if v and v[0] in (1, 2, 99)]
+    for r, res, v in bad[:3]:
+        if v[0] == 1:
+            ctx.violation('the service accepts a request the model (documented constraints) rejects', {'request': r, 'response': res.get('resp')},
+                          {'method': r.get('preferenceFunction')})
+    if [b for b in bad if b[2][0] != 1] and not any(x[2] for x in ctx.violations):
+        r, res, v = [b for b in bad if b[2][0] != 1][0]
+        ctx.violation('accept/reject correspondence model/code broken (%s)' % e2e.AGREE_TEXT.get(v[0]),
+                      {'broken': 'correspondence verdicts (C20)', 'request': r, 'answer': res.get('resp') or res.get('err')}, found_input=False)
+    return ctx.finish(
+        'the real service (unmodified main(), memory-limited process): GET /api/preferenceFunctions; valid requests over all methods and biases; '
+        'for each, every documented constraint violated one at a time (must be 400 with error and echoed request; unknown method / bias must '
+        'list the available names); malformed JSON, mistyped / missing / extreme fields and termination stress (must be answered within 15 s); '
+        'process liveness after every request and a final probe; distinct = (stream, constraint or body class, method, status)', './check C20')
